@@ -86,9 +86,11 @@ func (m *walkerMachine) step(x *hx, o op) {
 		}
 		m.push(x, o.arg(0), false)
 	case "PushAll":
-		if r := m.real.PushAll(o.A...); r != m.real {
+		args := append(make([]int, 0, len(o.A)+2), o.A...)
+		if r := m.real.PushAll(args...); r != m.real {
 			x.failOp("wrong-return", "PushAll did not return the walker")
 		}
+		scribbleInts(args) // the argument slice stays the caller's
 		for _, e := range o.A {
 			m.push(x, e, false)
 		}
@@ -105,9 +107,11 @@ func (m *walkerMachine) step(x *hx, o op) {
 		if m.afterSeen && !m.revisit {
 			x.note("pushfront_seen_then_new")
 		}
-		if r := m.real.PushFront(o.A...); r != m.real {
+		args := append(make([]int, 0, len(o.A)+2), o.A...)
+		if r := m.real.PushFront(args...); r != m.real {
 			x.failOp("wrong-return", "PushFront did not return the walker")
 		}
+		scribbleInts(args) // the argument slice stays the caller's
 	case "Next":
 		if len(m.queue) == 0 {
 			break // Next on an empty walker is outside the model
